@@ -52,6 +52,9 @@ def cases(tier, seed):
             for vt in TYPES:
                 out.append(('fit', d, k, vt, tier))
     for vt in TYPES:
+        for d, n, noise in (COUPLED_QUICK if tier == 'quick' else COUPLED_THOROUGH):
+            out.append(('fit', d, ('coupled', n, noise), vt, tier))
+    for vt in TYPES:
         for d in (3, 4):
             out.append(('layerA', d, 0, vt, tier))
     if tier != 'quick':
@@ -64,8 +67,14 @@ def cases(tier, seed):
         for k in (0, 1, 2):
             for hist in ('fresh', 'refit'):
                 out.append(('sample2', k, hist, vt, tier))
-    out.sort(key=lambda c: (c[0] != 'sample2', c[0] != 'layerA', -c[1] if isinstance(c[1], int) else 0))
+    out.sort(key=lambda c: (c[0] != 'sample2', c[0] != 'layerA', -c[1] if isinstance(c[1], int) else 0, str(c[2])))
     return out
+
+
+def zoo_attempt(f, *a):
+    from mc import zoo
+    out = zoo.attempt(f, *a)
+    return out if isinstance(out, zoo.Raised) else float(out)
 
 
 def famname(name):
@@ -73,11 +82,53 @@ def famname(name):
     return FAM[int(v)]
 
 
+def in_c07_range(fam, th):
+    """|Kendall tau| <= 0.8: the range over which C07 states (and checks) the accuracy of density and h-function."""
+    return {'clayton': 0 < th <= 8, 'gumbel': 1 <= th <= 5, 'frank': 0 < abs(th) <= 18.2}.get(fam, False)
+
+
+def _own(fam, th):
+    from copulas.bivariate import Bivariate
+    c = Bivariate(copula_type=fam)
+    c.theta = th
+    return c
+
+
+def raw_h(fam, th, a, b):
+    """Independent float64 h-function inside the accuracy range of C07. Beyond it (e.g. Frank theta = 35 fitted to two
+    columns with tau = 0.9, where the library's closed form is only good to a few per cent) C17 states a DATA FLOW, not an
+    accuracy: there the reference is the pair copula's own partial_derivative applied to the reference-selected inputs."""
+    if in_c07_range(fam, th):
+        return np.asarray(anp.h(fam, th, a, b), float).copy()
+    fam = fam.rstrip('!')
+    with np.errstate(all='ignore'):
+        return np.asarray(_own(fam, th).partial_derivative(np.column_stack([a, b])), float).copy()
+
+
+def raw_logpdf(fam, th, a, b):
+    with np.errstate(all='ignore'):
+        if in_c07_range(fam, th):
+            return np.log(anp.pdf(fam, th, a, b))
+        fam = fam.rstrip('!')
+        return np.log(np.asarray(_own(fam, th).probability_density(np.column_stack([a, b])), float))
+
+
 def hfun(fam, th, a, b):
-    out = np.asarray(anp.h(fam, th, a, b), float).copy()
-    out[out == 0] = EPS
-    out[out == 1] = 1 - EPS
+    """Reference h-function with the documented boundary correction (values at or rounded beyond 0 / 1 are moved inside)."""
+    out = raw_h(fam, th, a, b)
+    out[out <= 0] = EPS
+    out[out >= 1] = 1 - EPS
     return out
+
+
+def h_matches(stored, ref, tol):
+    """Stored pseudo-observations agree with the reference h: within tol of it, or - where the reference sits within tol of
+    a boundary, so that two correct float implementations may disagree on whether the value IS the boundary - within tol of
+    the corrected value EPSILON / 1 - EPSILON."""
+    d = np.abs(stored - ref)
+    near0 = (ref <= EPS + tol) & ((np.abs(stored - EPS) <= tol) | (stored <= tol))
+    near1 = (ref >= 1 - EPS - tol) & ((np.abs(stored - (1 - EPS)) <= tol) | (stored >= 1 - tol))
+    return bool(np.all((d <= tol) | near0 | near1))
 
 
 def flow_check(r, trees, U0, tag, case, sigp):
@@ -91,6 +142,7 @@ def flow_check(r, trees, U0, tag, case, sigp):
             L, R = int(e.L), int(e.R)
             r.ev()
             r.nontriv()
+            r.hit('h-ref:independent' if in_c07_range(famname(e.name), e.theta) else 'h-ref:own-closed-form(beyond C07 range)')
             if (L, D) not in F or (R, D) not in F:
                 r.violation(f'{sigp}:flow:inputs-unavailable', f'{tag}: edge ({L},{R}|{sorted(D)}) of tree {k} has no inputs '
                             f'F({L}|D), F({R}|D) produced by the previous tree', case=case)
@@ -114,9 +166,10 @@ def flow_check(r, trees, U0, tag, case, sigp):
             ok_shape = Ue.shape == (2, len(a))
             F[(L, D | {R})] = Ue[0] if ok_shape else hl
             F[(R, D | {L})] = Ue[1] if ok_shape else hr
-            if Ue.shape != (2, len(a)) or not (np.allclose(Ue[0], hl, rtol=0, atol=1e-9) and
-                                               np.allclose(Ue[1], hr, rtol=0, atol=1e-9)):
-                swapped = Ue.shape == (2, len(a)) and np.allclose(Ue[0], hr, atol=1e-9) and np.allclose(Ue[1], hl, atol=1e-9)
+            # Frank's closed-form h loses ~1e-9 absolute for |theta| >= 8 (see C07), hence the wider tolerance there
+            tol_h = 1e-7 if (fam == 'frank' and abs(e.theta) >= 8) else 1e-9
+            if Ue.shape != (2, len(a)) or not (h_matches(Ue[0], hl, tol_h) and h_matches(Ue[1], hr, tol_h)):
+                swapped = Ue.shape == (2, len(a)) and h_matches(Ue[0], hr, tol_h) and h_matches(Ue[1], hl, tol_h)
                 r.violation(f'{sigp}:flow:h-outputs{":swapped" if swapped else ""}',
                             f'{tag}: pseudo-observations of edge ({L},{R}|{sorted(D)}) of tree {k} are not '
                             f'(h(F(L|D)|F(R|D)), h(F(R|D)|F(L|D)))', case=case)
@@ -139,10 +192,16 @@ def ref_loglik(trees, row):
             L, R = int(e.L), int(e.R)
             a, b = F[(L, D)], F[(R, D)]
             fam = famname(e.name)
-            with np.errstate(all='ignore'):
-                tot += float(np.log(anp.pdf(fam, e.theta, a, b))[0])
-            F[(L, D | {R})] = np.asarray(anp.h(fam, e.theta, a, b), float)
-            F[(R, D | {L})] = np.asarray(anp.h(fam, e.theta, b, a), float)
+            # Arguments within 1e-6 of the boundary (far outside the square on which C07 states the accuracy of h and density)
+            # make the NEXT edge's density depend on the *relative* accuracy of a value like 1e-14, which no float64 closed
+            # form delivers (Frank theta=-0.02 at u=1.3e-14: two correct implementations differ by 20 % relative, 3e-15
+            # absolute). The likelihood clause is about the recursion - which cells feed which edge - so such edges use the
+            # pair copula's own closed forms as reference ingredients.
+            interior = 1e-6 <= min(a[0], b[0]) and max(a[0], b[0]) <= 1 - 1e-6
+            famx = fam if interior else fam + '!'
+            tot += float(raw_logpdf(famx, e.theta, a, b)[0])
+            F[(L, D | {R})] = raw_h(famx, e.theta, a, b)
+            F[(R, D | {L})] = raw_h(famx, e.theta, b, a)
     return tot
 
 
@@ -190,7 +249,9 @@ def likelihood_check(r, v, trees, tag, case, sigp, with_roundtrip=True):
                             f'{val!r} [{kname}]', case=case)
                 return
         fin = np.isfinite(ref)
-        if (fin and not abs(base - ref) <= 1e-9 * max(1.0, abs(ref))) or (not fin and np.isfinite(base) and abs(base) < 1e300):
+        hard = any(famname(e.name) == 'frank' and abs(e.theta) >= 8 for t in trees for e in t.edges)
+        tol_l = 1e-6 if hard else 1e-9          # Frank's closed forms are only good to ~1e-7 relative for |theta| >= 8 (C07)
+        if (fin and not abs(base - ref) <= tol_l * max(1.0, abs(ref))) or (not fin and np.isfinite(base) and abs(base) < 1e300):
             r.violation(f'{sigp}:likelihood-value', f'{tag}: get_likelihood({row.tolist()}) = {base!r}, the sum of log pair-copula '
                         f'densities at the h-propagated arguments is {ref!r}', case=case)
             return
@@ -207,11 +268,37 @@ def run_case(case):
     return _sample2(r, case)
 
 
+# (d, n, noise) of the tightly-coupled tables; between them they drive all four 0/1 corrections (left/right output equal to 0,
+# equal to 1, and rounded marginally ABOVE 1 by the Gumbel h-function) in first-, second- and third-tree edges
+COUPLED_QUICK = [(3, 120, 0.02), (3, 240, 0.05), (3, 400, 0.05), (3, 400, 0.1), (4, 240, 0.05), (4, 400, 0.05)]
+COUPLED_THOROUGH = [(d, n, noise) for d in (3, 4, 5) for n in (120, 240, 400) for noise in (0.1, 0.05, 0.02)]
+
+
+def coupled_table(d, n=240, noise=0.05):
+    """Columns 0 and d-1 are tightly coupled (common factor + small noise) except for three rows far off the diagonal, so
+    that first-tree conditional CDFs get as small as 1e-17 (or round to 1) and second-tree h-function values underflow to
+    exactly 0: the documented 0/1 correction has to act on BOTH h-function outputs and on every tree."""
+    import pandas as pd
+    from scipy import stats
+    P = A.lattice(n + 1, d + 1)[1:]
+    Z = stats.norm.ppf(P)
+    z = Z[:, 0]
+    a = z + noise * Z[:, 1]
+    b = z + noise * Z[:, 2]
+    a[:3] = [1.0, 1.5, -1.2]
+    b[:3] = [-2.5, -2.2, 2.4]
+    cols = {'c0': a}
+    for j in range(1, d - 1):
+        cols[f'c{j}'] = 0.5 * z + Z[:, 2 + j]
+    cols[f'c{d - 1}'] = b
+    return pd.DataFrame(cols)
+
+
 def _fit(r, case):
     from copulas.multivariate import VineCopula
     from mc.checks.c16 import layer_b_table
     _, d, k, vt, tier = case
-    df, dname = layer_b_table(d, k)
+    df, dname = (coupled_table(d, k[1], k[2]), f'coupled(n={k[1]},noise={k[2]})') if isinstance(k, tuple) else layer_b_table(d, k)
     for t in sorted({1, 2, max(1, d - 1)}):
         tag = f'VineCopula({vt}).fit(table d={d} design {dname}, truncated={t})'
         sigp = f'C17:{vt}'
@@ -227,7 +314,9 @@ def _fit(r, case):
         if flow_check(r, v.trees, U0, tag, case, sigp):
             r.hit('flow-ok')
             likelihood_check(r, v, v.trees, tag, case, sigp)
-        # sampling: schema, no NaN
+        # sampling: schema, no NaN; and using the sampler must not change what get_likelihood answers
+        probe = probe_rows(d)[1][None, :]
+        before = zoo_attempt(v.get_likelihood, probe.copy())
         for n in (1, 4):
             try:
                 s = v.sample(n)
@@ -241,6 +330,10 @@ def _fit(r, case):
                 r.violation(f'{sigp}:sample-schema', f'{tag}: sample({n}) has {len(s)} rows, columns {list(s.columns)}, '
                             f'NaN={bool(s.isna().any().any())}', case=case)
                 break
+        after = zoo_attempt(v.get_likelihood, probe.copy())
+        if repr(before) != repr(after):
+            r.violation(f'{sigp}:likelihood-changed-by-sampling', f'{tag}: get_likelihood({probe[0].tolist()}) was {before!r} '
+                        f'before sample() and is {after!r} afterwards', case=case)
     r.hit(f'fit:d={d}')
     r['sample'] = {'kind': 'whole fit', 'd': d, 'design': dname, 'type': vt, 'truncations': sorted({1, 2, max(1, d - 1)})}
     return r
